@@ -30,6 +30,7 @@ from matplotlib.font_manager import FontProperties
 from .fit_info import FitInfoFile
 from .sed import SED
 from .sed.cube import SEDCube
+from .sed.helpers import convert_flux
 from .utils import io
 from .utils import parfile
 from .utils.formatter import LogFormatterMathtextAuto
@@ -303,7 +304,7 @@ def plot(input_fits, output_dir=None, select_format=("N", 1), plot_max=None,
                 s = sed_cube.get_sed(info.model_name[i])
 
             # Convert to ergs/cm^2/s
-            s.flux = s.flux.to(u.erg / u.cm**2 / u.s, equivalencies=u.spectral_density(s.nu))
+            s.flux = convert_flux(s.nu, s.flux, u.erg / u.cm**2 / u.s, distance=s.distance)
 
             s = s.scale_to_distance(10. ** info.sc[i] * KPC)
             s = s.scale_to_av(info.av[i], info.meta.extinction_law.get_av)
